@@ -146,9 +146,9 @@ struct SnakecaseFn {
 impl FunctionExpression for SnakecaseFn {
     fn resolve(&self, ctx: &mut Context) -> Resolved {
         let value = self.value.resolve(ctx)?;
-        let string_value = value
-            .try_bytes_utf8_lossy()
-            .expect("can't convert to string");
+        // The compiler checks the argument type, but a value read from the target can still differ at
+        // runtime (e.g. a target that rejected the read): report it instead of panicking.
+        let string_value = value.try_bytes_utf8_lossy()?;
 
         match &self.excluded_boundaries {
             Some(boundaries) if !boundaries.is_empty() => {
